@@ -7,6 +7,9 @@ From NIC Require Import Base.SMap AppProtect.Model AppProtect.Spec AppProtect.Pr
 Import ListNotations.
 Open Scope string_scope.
 Open Scope list_scope.
+
+Section V.
+Context {fx : bool}.
 Open Scope Z_scope.
 
 Definition ans_ok (a : answer) : bool := match a with AOk => true | _ => false end.
@@ -44,16 +47,16 @@ Definition flip_reported (st st' : state) (out : output) (kd : kind) (key : stri
 
 Lemma policy_event_reported w d k o key :
   let st := {| waf := w; dos := d |} in
-  let r := add_or_update_policy w k o in
+  let r := add_or_update_policy fx w k o in
   flip_reported st {| waf := fst r; dos := d |} (snd r) KPolicy key.
 Proof.
   intros st r Hflip. subst st. unfold usable, get_app_resource in *. cbn [waf] in *.
   assert (Hr : policies (fst r) = insert k (match create_policy_ex o with
                  | (pol, Some _) => pol
-                 | (pol, None) => if verify_policy_against_user_sigs (usersigs w) pol then pol else pol_set_invalid pol EMissing
+                 | (pol, None) => if verify_policy_against_user_sigs fx (usersigs w) pol then pol else pol_set_invalid pol EMissing
                  end) (policies w)).
   { unfold r, add_or_update_policy. destruct (create_policy_ex o) as [pol [c|]]; [reflexivity|].
-    destruct (verify_policy_against_user_sigs (usersigs w) pol); reflexivity. }
+    destruct (verify_policy_against_user_sigs fx (usersigs w) pol); reflexivity. }
   destruct (string_dec key k) as [->|Hne].
   - clear Hflip. unfold stored. cbn [waf]. rewrite Hr, lookup_insert_eq.
     unfold r, add_or_update_policy.
@@ -61,7 +64,7 @@ Proof.
     + destruct (create_policy_some _ _ _ E) as [Hv _]. rewrite Hv. cbn. split; [left; reflexivity|]. eauto.
     + pose proof (create_policy_none _ _ E) as Hp.
       assert (Hv : p_valid pol = true) by (rewrite Hp; reflexivity).
-      destruct (verify_policy_against_user_sigs (usersigs w) pol); cbn.
+      destruct (verify_policy_against_user_sigs fx (usersigs w) pol); cbn.
       * rewrite Hv. cbn. split; [left; reflexivity|]. discriminate.
       * split; [left; reflexivity|]. eauto.
   - exfalso. apply Hflip. rewrite Hr, lookup_insert_neq by exact Hne. reflexivity.
@@ -118,40 +121,40 @@ Qed.
 (* policies under signature events: verifyPolicies *)
 
 Lemma verify_policies_map sx P :
-  fst (fst (verify_policies sx P)) = mapk (fun k p => fst (fst (verify_one sx k p))) P.
+  fst (fst (verify_policies fx sx P)) = mapk (fun k p => fst (fst (verify_one fx sx k p))) P.
 Proof. unfold verify_policies, mapk. cbn [fst]. rewrite map_map. reflexivity. Qed.
 
 Lemma verify_policies_changes sx P key p c :
-  lookup key P = Some p -> In c (snd (fst (verify_one sx key p))) -> In c (snd (fst (verify_policies sx P))).
+  lookup key P = Some p -> In c (snd (fst (verify_one fx sx key p))) -> In c (snd (fst (verify_policies fx sx P))).
 Proof.
   intros L Hc. unfold verify_policies. cbn [fst snd]. apply in_flat_map.
-  exists (key, verify_one sx key p). split; [|exact Hc].
+  exists (key, verify_one fx sx key p). split; [|exact Hc].
   apply in_map_iff. exists (key, p). split; [reflexivity|apply lookup_In; exact L].
 Qed.
 
 Lemma verify_policies_problems sx P key p c :
-  lookup key P = Some p -> In c (snd (verify_one sx key p)) -> In c (snd (verify_policies sx P)).
+  lookup key P = Some p -> In c (snd (verify_one fx sx key p)) -> In c (snd (verify_policies fx sx P)).
 Proof.
   intros L Hc. unfold verify_policies. cbn [fst snd]. apply in_flat_map.
-  exists (key, verify_one sx key p). split; [|exact Hc].
+  exists (key, verify_one fx sx key p). split; [|exact Hc].
   apply in_map_iff. exists (key, p). split; [reflexivity|apply lookup_In; exact L].
 Qed.
 
 Lemma verify_one_report sx key p :
-  let r := verify_one sx key p in
+  let r := verify_one fx sx key p in
   p_valid p <> p_valid (fst (fst r)) ->
   In (chg (op_for (p_valid (fst (fst r)))) KPolicy key) (snd (fst r)) /\
   (p_valid (fst (fst r)) = false -> In (prob KPolicy key PcMissing) (snd r)).
 Proof.
   unfold verify_one.
   destruct (p_valid p) eqn:V; cbn [negb andb].
-  - rewrite V. destruct (verify_policy_against_user_sigs sx p); cbn.
+  - rewrite V. destruct (verify_policy_against_user_sigs fx sx p); cbn.
     + intros H. congruence.
     + intros _. split; [left; reflexivity|]. intros _. left; reflexivity.
   - destruct (err_eqb (p_err p) EMissing).
-    + destruct (verify_policy_against_user_sigs sx p) eqn:Ver.
+    + destruct (verify_policy_against_user_sigs fx sx p) eqn:Ver.
       * cbn [p_valid pol_set_valid].
-        change (verify_policy_against_user_sigs sx (pol_set_valid p)) with (verify_policy_against_user_sigs sx p).
+        change (verify_policy_against_user_sigs fx sx (pol_set_valid p)) with (verify_policy_against_user_sigs fx sx p).
         rewrite Ver. cbn. intros _. split; [left; reflexivity|]. discriminate.
       * rewrite V. cbn. congruence.
     + rewrite V. cbn. congruence.
@@ -162,7 +165,7 @@ Proof. destruct b; reflexivity. Qed.
 
 Lemma usersig_event_policies_reported w d sigs0 pr0 key :
   let st := {| waf := w; dos := d |} in
-  let r := build_user_sig_change w sigs0 pr0 in
+  let r := build_user_sig_change fx w sigs0 pr0 in
   flip_reported st {| waf := fst r; dos := d |} (snd r) KPolicy key.
 Proof.
   intros st r Hflip. subst st. unfold usable, get_app_resource, stored in *. cbn [waf] in *.
@@ -171,7 +174,7 @@ Proof.
   pose proof (verify_policies_map sigs1 (policies w)) as HM.
   pose proof (verify_policies_changes sigs1 (policies w) key) as HC.
   pose proof (verify_policies_problems sigs1 (policies w) key) as HP.
-  destruct (verify_policies sigs1 (policies w)) as [[pols1 vch] vpr]. cbn [fst snd] in *. subst pols1.
+  destruct (verify_policies fx sigs1 (policies w)) as [[pols1 vch] vpr]. cbn [fst snd] in *. subst pols1.
   cbn [policies o_changes o_problems] in *. rewrite lookup_mapk in *.
   destruct (lookup key (policies w)) as [p|] eqn:L; cbn [option_map] in *; [|exfalso; apply Hflip; reflexivity].
   pose proof (verify_one_report sigs1 key p) as R. cbn zeta in R.
@@ -425,3 +428,5 @@ Section DosReport.
     fst (fst (reeval (st_with dp dl) (prs_referencing_logconf (st_with dp dl) k))) = st_with dp dl.
   Proof. exact (proj1 (reeval_with (refs_log k) dp dl)). Qed.
 End DosReport.
+
+End V.
